@@ -2934,8 +2934,9 @@ class Cast(Pointwise):
     def _simplified(self):
         if iszero(self.arg):
             return zeros_like(self)
-        for axis, parts in self.arg._inflations:
-            return util.sum(_inflate(self._newargs(func), dofmap, self.shape[axis], axis) for dofmap, func in parts.items())
+        if self.arg.dtype != bool: # a boolean inflation adds with logical or, which does not commute with the cast
+            for axis, parts in self.arg._inflations:
+                return util.sum(_inflate(self._newargs(func), dofmap, self.shape[axis], axis) for dofmap, func in parts.items())
         return super()._simplified()
 
     def _intbounds_impl(self):
